@@ -67,8 +67,8 @@ RULE = (
 ASSUMPTIONS = [
     "differential: both sides run the tree under test, a defect common to source and module loading is invisible here",
     "the environment that loads the modules has the same options as the one that compiled them (documented use)",
-    "errors are compared by exception class; only TemplateError, TypeError, ValueError, ArithmeticError, LookupError and "
-    "AttributeError count as outcomes, anything else (NameError, ImportError, ...) is a violation by itself",
+    "errors are compared by exception class; only TemplateError, TypeError, ValueError, ArithmeticError, LookupError, "
+    "AttributeError and RecursionError count as outcomes, anything else (NameError, ImportError, ...) is a violation by itself",
     "tracebacks, Template.filename and is_up_to_date are not compared (precompiled templates have no source access)",
     "a syntactically broken template cannot be precompiled: it is checked to be skipped/raised as documented and is then "
     "left out on both sides",
@@ -215,7 +215,8 @@ def _allowed():
     if _ALLOWED is None:
         import jinja2
 
-        _ALLOWED = (jinja2.TemplateError, TypeError, ValueError, ArithmeticError, LookupError, AttributeError)
+        # RecursionError: a G-stmt program can recurse without bound (recursive loop over a rebound variable)
+        _ALLOWED = (jinja2.TemplateError, TypeError, ValueError, ArithmeticError, LookupError, AttributeError, RecursionError)
     return _ALLOWED
 
 
